@@ -48,6 +48,12 @@ class Holes:
         return StrHole(name, len(value) if length is None else length, truth=bool(value))
 
     def i(self, value):
+        # equal values share one sentinel, so that a generator branching on EQUALITY of two filter values
+        # (e.g. since == until) takes the same branch on holes as on the real values; the comparison is made here,
+        # under tracing, and forks the path when the values are symbolic
+        for key, prev in self.env.items():
+            if key.startswith("#") and prev == value:
+                return int(key[1:])
         self.n += 1
         sentinel = 900000 + self.n
         self.env["#%d" % sentinel] = value
